@@ -593,6 +593,23 @@ func (r *UnitRun) applyContractSelf(st *State, callee *Unit, recv *Val, args []V
 	for i, p := range params {
 		bound[p.Name] = args[i]
 	}
+	if len(callee.GhostParams) > 0 {
+		short := callee.Name[strings.LastIndex(callee.Name, ".")+1:]
+		given := r.unit.CallGhost[short]
+		envG := &SpecEnv{run: r, st: st, old: r.entry, bound: map[string]Val{}}
+		for _, gp := range callee.GhostParams {
+			src, ok := given[gp.Name]
+			if !ok {
+				panic(toolLimit("call of " + callee.Name + ": no callghost value for ghost parameter " + gp.Name))
+			}
+			x, err := parser.ParseExpr(src)
+			if err != nil {
+				panic(toolLimit("callghost " + short + "." + gp.Name + ": " + err.Error()))
+			}
+			v := envG.eval(x)
+			bound[gp.Name] = r.valOfSort(r.coerce(st, v, gp.Sort, "callghost"), gp.Sort)
+		}
+	}
 	ord := r.callOrd[e]
 	site := fmt.Sprintf("%s@%d", callee.Name, ord)
 	pre := st.clone()
